@@ -11,7 +11,7 @@ EXPLANATION = (
     "positive pid of the running, unreaped child, with SIGTERM/SIGKILL resp. options 0, and none is issued in the not-started, "
     "exited or in-child states; (2) all-paths analysis of the start path showing the 'running' state is only ever established "
     "together with the positive fork result of a child that was not reaped, on every error path (allocation failures included); "
-    "(3) who-may-call scan for kill/waitpid and absence of other signalling/reaping primitives. Not decided: pid recycling by the OS.")
+    "(3) who-may-call scan for kill/waitpid and absence of other signalling/reaping primitives. Not decided: pid recycling by the OS. K5: the library never calls exit()/quick_exit() (a failed child must not run the application's exit handlers, which may signal and reap).")
 ASSUMPTIONS = [
     "clang 14 parser/CFG and the fact extractor are correct", "libc models in sa/models.py (fork returns <0, 0 or the positive child pid)",
     "a child reaped behind the library's back (waitpid -> ECHILD) is outside the library's control",
